@@ -31,7 +31,7 @@ CURRENTS = ("Circle", "Polyline")
 KINDS = MAGNETS + ("Dipole",) + CURRENTS
 # more cases where the code is most intricate (2500 lines of case distinctions)
 WEIGHT = {("CylinderSegment", "flux"): 2.5, ("CylinderSegment", "circ"): 1.5,
-          ("TriangularMesh", "flux"): 4.0, ("Tetrahedron", "flux"): 2.0, ("Circle", "circ"): 2.0}
+          ("TriangularMesh", "flux"): 4.0, ("Tetrahedron", "flux"): 2.0, ("Circle", "circ"): 2.0, ("Polyline", "circ"): 2.0}
 # rough cost of one field evaluation (seconds per observer), used only to size budgets
 COST = {"Cuboid": 3e-6, "Cylinder": 4e-6, "CylinderSegment": 1.3e-4, "Sphere": 1e-6, "Tetrahedron": 6e-6,
         "TriangularMesh": 6e-5, "Dipole": 1e-6, "Circle": 1e-6, "Polyline": 4e-6}
@@ -62,22 +62,34 @@ def loguniform(rng, a, b):
 def gen_source(rng, kind):
     s = loguniform(rng, 0.3, 3.0)
     src = {"type": kind, "pos": rvec(rng, 2.0 * s), "rotvec": rrotvec(rng)}
-    if rng.random() < 0.15:
+    x = rng.random()
+    if x < 0.12:
         src["rotvec"] = [0.0, 0.0, 0.0]
+    elif x < 0.27:       # quarter turns and 180-degree flips about the coordinate axes
+        ax = [0.0, 0.0, 0.0]
+        ax[rng.randrange(3)] = rng.choice([-1.0, 1.0]) * rng.choice([0.5 * math.pi, math.pi])
+        src["rotvec"] = ax
     pol = list(runit(rng) * rng.uniform(0.1, 1.5))
+    if rng.random() < 0.25:      # exactly along +-x, +-y, +-z (the other components exactly zero)
+        pol = [0.0, 0.0, 0.0]
+        pol[rng.randrange(3)] = rng.choice([-1.0, 1.0]) * rng.uniform(0.1, 1.5)
     # bodies with clearly different extents along their local axes, in every axis order
     aniso = [10.0 ** rng.uniform(-0.55, 0.45) for _ in range(3)]
+    if rng.random() < 0.15:      # thin plates / rods
+        aniso[rng.randrange(3)] *= 0.15
     if kind == "Cuboid":
         src.update(dimension=[s * a for a in aniso], polarization=pol)
     elif kind == "Cylinder":
         src.update(dimension=[s * aniso[0], s * aniso[2]], polarization=pol)
     elif kind == "CylinderSegment":
         r2 = s * rng.uniform(0.4, 1)
-        r1 = 0.0 if rng.random() < 0.25 else r2 * rng.uniform(0.1, 0.8)
+        x = rng.random()      # solid sector, ordinary ring sector, thin shell
+        r1 = 0.0 if x < 0.25 else r2 * rng.uniform(0.1, 0.8) if x < 0.85 else r2 * rng.uniform(0.9, 0.98)
         # the section may be described with angles in any of the admissible windows of [-360, 360]
         x = rng.random()
         phi1 = rng.uniform(-360, -180) if x < 0.35 else rng.uniform(-180, 0) if x < 0.6 else rng.uniform(0, 300)
-        phi2 = min(360.0, phi1 + (360.0 if rng.random() < 0.15 else rng.uniform(25, 340)))
+        x = rng.random()      # full ring, span just below 360, ordinary span
+        phi2 = min(360.0, phi1 + (360.0 if x < 0.12 else rng.uniform(340, 359.9) if x < 0.24 else rng.uniform(25, 340)))
         src.update(dimension=[r1, r2, s * aniso[2], phi1, phi2], polarization=pol)
     elif kind == "Sphere":
         src.update(diameter=s * rng.uniform(0.3, 1), polarization=pol)
@@ -93,7 +105,7 @@ def gen_source(rng, kind):
         src.update(points=(np.array([rvec(rng, 0.5 * s) for _ in range(npts)]) * np.array(aniso)).tolist(),
                    polarization=pol)
     elif kind == "Dipole":
-        src.update(moment=list(runit(rng) * rng.uniform(0.1, 10)))
+        src.update(moment=pol if 0.0 in pol else list(runit(rng) * rng.uniform(0.1, 10)))
     elif kind == "Circle":
         src.update(diameter=s * rng.uniform(0.3, 1), current=rng.choice([-1, 1]) * rng.uniform(0.2, 5))
     elif kind == "Polyline":
@@ -110,17 +122,33 @@ def gen_source(rng, kind):
     # the laws do not know about units or about where the local origin is: for the classes whose
     # code has no absolute tolerance (those with one are C12's subject) use every length decade
     # from nm to km, and describe conductors by vertices far away from their local origin
-    if kind in ("Cuboid", "Cylinder", "Sphere", "Circle", "Polyline", "Dipole") and rng.random() < 0.25:
-        unit = 10.0 ** rng.uniform(-9, 3)
+    unit = None
+    if kind in ("Cuboid", "Cylinder", "Sphere", "Circle", "Polyline", "Dipole") and rng.random() < 0.3:
+        unit = rng.choice([1e-9, 1e-6, 1e-3, 1e3]) if rng.random() < 0.5 else 10.0 ** rng.uniform(-9, 3)
+    elif kind in ("CylinderSegment", "Tetrahedron", "TriangularMesh") and rng.random() < 0.15:
+        unit = rng.choice([1e-3, 1e3])      # mm and km; smaller sizes hit the absolute tolerances recorded under C12
+    if unit is not None:
         src["pos"] = [x * unit for x in src["pos"]]
-        for key in ("dimension", "diameter", "vertices"):
+        for key in ("dimension", "diameter", "vertices", "points"):
             if key in src:
-                src[key] = (np.array(src[key], dtype=float) * unit).tolist()
+                arr = np.array(src[key], dtype=float)
+                if kind == "CylinderSegment":
+                    arr[:3] *= unit          # the last two entries are angles
+                else:
+                    arr = arr * unit
+                src[key] = arr.tolist()
         src["unit"] = unit
-    if kind == "Polyline" and rng.random() < 0.4:
+    if kind in ("Tetrahedron", "TriangularMesh") and rng.random() < 0.4:     # body away from its local origin
+        key = "vertices" if kind == "Tetrahedron" else "points"
+        V = np.array(src[key], dtype=float)
+        size = float(np.max(np.linalg.norm(V - V.mean(axis=0), axis=1)))
+        src[key] = (V + runit(rng) * size * 10.0 ** rng.uniform(-0.5, 1.5)).tolist()
+    if kind in CURRENTS and rng.random() < 0.03:
+        src["current"] = 0.0
+    if kind == "Polyline" and rng.random() < 0.5:
         V = np.array(src["vertices"], dtype=float)
         size = float(np.max(np.linalg.norm(V - V.mean(axis=0), axis=1)))
-        off = runit(rng) * size * 10.0 ** rng.uniform(1, 6.5)
+        off = runit(rng) * size * 10.0 ** rng.uniform(2, 6.5)
         src["vertices"] = (V + off).tolist()
         src["pos"] = list(np.array(src["pos"], dtype=float) - R.from_rotvec(src["rotvec"]).apply(off))
     return src
@@ -214,7 +242,15 @@ class Scene:
             objs = [make_obj(s) for s in case["sources"]]
             coll = case.get("coll")
             if coll is not None:
-                top = magpy.Collection(*objs)
+                nest = coll.get("nest")
+                if nest:      # nesting depth 2: an inner collection with its own pose inside the posed outer one
+                    inner = magpy.Collection(*[objs[i] for i in nest["idx"]])
+                    inner.move(nest["move"])
+                    inner.rotate(R.from_rotvec(nest["rotvec"]))
+                    rest = [o for i, o in enumerate(objs) if i not in nest["idx"]]
+                    top = magpy.Collection(*rest[:1], inner, *rest[1:])
+                else:
+                    top = magpy.Collection(*objs)
                 top.move(coll["move"])
                 top.rotate(R.from_rotvec(coll["rotvec"]))
         except Exception as e:   # pylint: disable=broad-except
@@ -226,6 +262,7 @@ class Scene:
         else:
             top = objs
         self.top = top
+        self.entry = case.get("entry", "func")
         self.info = []
         for s, o in zip(case["sources"], objs):
             pos = np.array(o.position, dtype=float).reshape(-1, 3)[-1]
@@ -243,10 +280,16 @@ class Scene:
     def field(self, which, pts):
         f = magpy.getB if which == "B" else magpy.getH
         try:
-            if isinstance(self.top, list):
-                out = f(self.top, pts, sumup=True)
+            if self.entry == "sensor":        # the observers as pixels of a Sensor
+                obs = magpy.Sensor(pixel=pts)
             else:
-                out = f(self.top, pts)
+                obs = pts
+            if isinstance(self.top, list):
+                out = f(self.top, obs, sumup=True)
+            elif self.entry == "method":      # the method of the source / collection
+                out = (self.top.getB if which == "B" else self.top.getH)(obs)
+            else:
+                out = f(self.top, obs)
         except Exception as e:   # pylint: disable=broad-except
             raise FieldRaised(f"{type(e).__name__}: {e}") from e
         return np.asarray(out, dtype=float).reshape(-1, 3)
@@ -651,12 +694,36 @@ def shrink_case(case, seconds, min_evals=2e4):
 
 
 # ====================================================================== generation of cases
+def scale_exc(src, f):
+    for key in ("polarization", "moment"):
+        if key in src:
+            src[key] = [x * f for x in src[key]]
+    if "current" in src:
+        src["current"] = src["current"] * f
+    return src
+
+
 def gen_case(rng, law, kinds, coll=False):
     for _ in range(40):
         srcs = [gen_source(rng, k) for k in kinds]
         case = {"law": law, "sources": srcs, "coll": None, "focus": rng.randrange(len(srcs))}
         if coll:
             case["coll"] = {"move": rvec(rng, 2.0), "rotvec": rrotvec(rng)}
+        case["entry"] = rng.choice(["func", "func", "method", "sensor"])
+        if len(srcs) > 1:
+            x = rng.random()
+            if x < 0.3:        # twin: same geometry and pose, different excitation
+                i = rng.randrange(len(srcs))
+                srcs.insert(rng.randrange(len(srcs) + 1), scale_exc(json.loads(json.dumps(srcs[i])),
+                                                                   rng.choice([-1, 1]) * rng.uniform(0.3, 2)))
+            elif x < 0.4:      # exact duplicate
+                srcs.append(json.loads(json.dumps(srcs[rng.randrange(len(srcs))])))
+            if rng.random() < 0.2:       # excitations that differ by 6..9 decades, either way round
+                scale_exc(srcs[rng.randrange(len(srcs))], 10.0 ** (rng.choice([-1, 1]) * rng.uniform(6, 9)))
+            case["focus"] = rng.randrange(len(srcs))
+            if coll and len(srcs) >= 3 and rng.random() < 0.4:
+                idx = sorted(rng.sample(range(len(srcs)), 2))
+                case["coll"]["nest"] = {"idx": idx, "move": rvec(rng, 1.0), "rotvec": rrotvec(rng)}
         scene = Scene(case)
         ftype = srcs[case["focus"]]["type"]
         places = ["centre", "surface", "away"]
@@ -748,7 +815,7 @@ def sweep(ctx, n_per_kind, n_coll, seconds, n_special=0, min_evals=2e4):
         for law in ("flux", "circ"):
             plan += [(law, [kind], False)] * int(round(n_per_kind * WEIGHT.get((kind, law), 1.0)))
     for _ in range(n_coll):
-        k = rng.randint(2, 3)
+        k = rng.choice([2, 2, 3, 3, 4, 5])
         kinds = [rng.choice(KINDS) for _ in range(k)]
         # keep expensive classes rare inside collections
         kinds = [x if x not in ("CylinderSegment", "TriangularMesh") or rng.random() < 0.3 else "Cuboid" for x in kinds]
@@ -927,7 +994,71 @@ def gen_rows(rng, n):
             else:
                 o, d = [0.0, 0.0, dy(rng)], 0.0
             rows.append(("circle", fld, o, d, cur))
-    return rows
+    return [special_row(rng, r) for r in rows]
+
+
+def special_row(rng, row):
+    """exact special values (excitation along one axis, zero current) and other length units"""
+    row = list(row)
+    which = row[0]
+    x = rng.random()
+    if x < 0.2:
+        if which in ("dipole", "sphere"):
+            k = 3 if which == "dipole" else 4
+            v = [0.0, 0.0, 0.0]
+            v[rng.randrange(3)] = rng.choice([-1.0, 1.0]) * rng.uniform(0.1, 5)
+            row[k] = v
+        elif rng.random() < 0.2:
+            row[-1] = 0.0            # zero current
+    if rng.random() < 0.3:
+        u = rng.choice([1e-6, 1e-3, 1e3])
+        row[2] = [a * u for a in row[2]]
+        if which in ("sphere", "circle"):
+            row[3] = row[3] * u
+        elif which == "polyline":
+            row[3] = [a * u for a in row[3]]
+            row[4] = [a * u for a in row[4]]
+        elif which == "polysum":
+            row[3] = [[a * u for a in v] for v in row[3]]
+    return tuple(row)
+
+
+def impl_batched(rows):
+    """the same rows, but every class in ONE call per field (>= 16 rows, all dispatch regions of the
+    class mixed); returns {row index: vector}"""
+    out = {}
+    groups = {}
+    for i, r in enumerate(rows):
+        key = (r[0], r[1]) if r[0] != "polysum" else (r[0], r[1], len(r[3]))
+        groups.setdefault(key, []).append(i)
+    for key, idx in groups.items():
+        which, fld = key[0], key[1]
+        A = lambda k: np.array([rows[i][k] for i in idx], dtype=float)     # noqa: E731
+        if which == "dipole":
+            v = field_BH_dipole.BHJM_dipole(fld, A(2), A(3))
+        elif which == "sphere":
+            v = field_BH_sphere.BHJM_magnet_sphere(fld, A(2), A(3), A(4))
+        elif which == "circle":
+            v = field_BH_circle.BHJM_circle(fld, A(2), A(3), A(4))
+        elif which == "polyline":
+            v = field_BH_polyline.BHJM_current_polyline(fld, A(2), A(3), A(4), A(5))
+        else:
+            v = field_BH_polyline.current_vertices_field(fld, A(2), A(4), vertices=A(3))
+        for i, vi in zip(idx, v):
+            out[i] = [float(x) for x in vi]
+    # ragged vertex sets of different lengths in one call
+    for fld in ("B", "H"):
+        idx = [i for i, r in enumerate(rows) if r[0] == "polysum" and r[1] == fld]
+        if len({len(rows[i][3]) for i in idx}) > 1:
+            verts = np.empty(len(idx), dtype=object)
+            for j, i in enumerate(idx):
+                verts[j] = np.array(rows[i][3], dtype=float)
+            v = field_BH_polyline.current_vertices_field(
+                fld, np.array([rows[i][2] for i in idx], dtype=float),
+                np.array([rows[i][4] for i in idx], dtype=float), vertices=verts)
+            for i, vi in zip(idx, v):
+                out[("ragged", i)] = [float(x) for x in vi]
+    return out
 
 
 def impl_row(row):
@@ -980,6 +1111,7 @@ def close(a, b, scale):
 def correspondence(ctx, n):
     rows = gen_rows(ctx.rng, n)
     impl = [impl_row(r) for r in rows]
+    batched = impl_batched(rows)
     txt = CASES_HEADER + "Eval vm_compute in [\n " + ";\n ".join(coq_row(r) for r in rows) + "].\n"
     name = f"c14_{ctx.tier}_{os.getpid()}"       # concurrent checks must not share the cases file
     ok, out = ctx.coq_eval(name, txt)
@@ -996,7 +1128,7 @@ def correspondence(ctx, n):
         ctx.add_broken("broken-correspondence", "c14 model evaluation", f"{len(got)} rows for {len(rows)} cases")
         return
     bad = 0
-    for r, e, g in zip(rows, impl, got):
+    for ri, (r, e, g) in enumerate(zip(rows, impl, got)):
         code, vec = g[0], g[1:]
         ctx.bump(f"corr:{r[0]}:{r[1]}:branch{int(code)}")
         if r[0] == "circle" and code == 2:
@@ -1005,6 +1137,10 @@ def correspondence(ctx, n):
         ctx.case(("corr", repr(r)), True)
         scale = max([abs(x) for x in e[1:] if math.isfinite(x)] + [0.0])
         same = (e[0] is None or e[0] == code) and all(close(float(a), float(b), scale) for a, b in zip(e[1:], vec))
+        for key in (ri, ("ragged", ri)):
+            if key in batched and not all(close(float(a), float(b), scale) for a, b in zip(batched[key], vec)):
+                same = False
+                ctx.bump("corr:batched-call-differs")
         if same:
             ctx.count("traces_validated_against_impl")
         else:
